@@ -1,7 +1,7 @@
 (* C16/Props.v — property-level theorems only (statements + `exact`), each followed by Print Assumptions.
    Tags [FULL]/[PARTIAL]/[REFUTED] are read by bin/check. *)
 From Coq Require Import List NArith Bool.
-From BLB Require Import Lib.CRC C16.Model C16.Proofs.
+From BLB Require Import Lib.CRC Lib.CRCProofs C16.Model C16.Proofs.
 Import ListNotations.
 Open Scope N_scope.
 
@@ -35,3 +35,63 @@ Print Assumptions frame_roundtrip_buffer_rule.
 Theorem pool_buffer_fits : forall n bufcap, n <= delivered_cap n bufcap.
 Proof. exact delivered_cap_ge. Qed.
 Print Assumptions pool_buffer_fits.
+
+(* [REFUTED] the clause "every burst of at most 32 bits inside payload and payload checksum is reported as an error"
+   is false for the code as it is. Witness on a one-byte codec: payload [129] whose checksum 0x22E0EB2A has its two
+   top bits clear, a 31-bit burst over the last payload bit and the 30 significant checksum bits turns the checksum
+   field into 0, which the receiver takes as do-not-check, and payload [1] is delivered (finding F8) *)
+Theorem frame_detects_burst_payload_refuted :
+  exists (p p' cf' : list byte),
+    0 < lenN p /\ lenN p < 2 ^ 32 /\ length cf' = 4%nat /\ Forall (fun x => x < 256) cf' /\
+    burst_error (bits_of (p ++ le32 (crc32c p))) (bits_of (p' ++ cf')) /\
+    p' <> p /\
+    send byte byte tgenc tgenc 7 9 p = frame_prefix byte byte tgenc tgenc 7 9 (lenN p) ++ p ++ le32 (crc32c p) /\
+    recv byte byte tgdec tgdec (frame_prefix byte byte tgenc tgenc 7 9 (lenN p) ++ p' ++ cf') 0 true
+      = ROk 7 9 p' false false [].
+Proof. exact f8_witness. Qed.
+Print Assumptions frame_detects_burst_payload_refuted.
+
+(* [FULL] the same clause with exactly that case carved out. For every gob-like codec, message, non-empty payload
+   below 4 GiB, receiver buffer and following stream: if the bytes of payload and payload checksum are hit by any
+   single burst of at most 32 bits, anywhere including across the boundary of the two, and the damaged checksum
+   field does not read 0, the receiver returns errChecksumMismatch and delivers nothing *)
+Theorem frame_detects_burst_payload_unless_zero :
+  forall (H B : Type) (genc_h : H -> list byte) (genc_b : B -> list byte)
+         (gdec_h : list byte -> gres H) (gdec_b : list byte -> gres B),
+    (forall m rest, gdec_h (genc_h m ++ rest) = GOk m (lenN (genc_h m))) ->
+    (forall m rest, gdec_b (genc_b m ++ rest) = GOk m (lenN (genc_b m))) ->
+    forall (h : H) (b : B) (p p' cf' rest : list byte) (bufcap : N),
+      0 < lenN p -> lenN p < 2 ^ 32 ->
+      length cf' = 4%nat -> Forall (fun x => x < 256) cf' ->
+      burst_error (bits_of (p ++ le32 (crc32c p))) (bits_of (p' ++ cf')) ->
+      of_le cf' <> 0 ->
+      send H B genc_h genc_b h b p = frame_prefix H B genc_h genc_b h b (lenN p) ++ p ++ le32 (crc32c p) /\
+      recv H B gdec_h gdec_b (frame_prefix H B genc_h genc_b h b (lenN p) ++ p' ++ cf' ++ rest) bufcap true
+        = RErrCrc rest.
+Proof. exact burst_payload_unless_zero. Qed.
+Print Assumptions frame_detects_burst_payload_unless_zero.
+
+(* [PARTIAL] a burst of at most 32 bits inside gob header, gob body, length and header checksum is reported as an
+   error PROVIDED encoding/gob either rejects the damaged bytes or still consumes the original number of bytes;
+   when gob accepts a different extent the two checksum fields are read from other positions and detection is only
+   probabilistic, a limit of a format whose outer frame is not length-prefixed. Never a delivery, never a wait *)
+Theorem frame_burst_header_partial :
+  forall (H B : Type) (genc_h : H -> list byte) (genc_b : B -> list byte)
+         (gdec_h : list byte -> gres H) (gdec_b : list byte -> gres B),
+    (forall m rest, gdec_h (genc_h m ++ rest) = GOk m (lenN (genc_h m))) ->
+    (forall m rest, gdec_b (genc_b m ++ rest) = GOk m (lenN (genc_b m))) ->
+    forall (h : H) (b : B) (n : N) (hb' lenb' crcb' tl : list byte) (bufcap : N) (isbulk : bool),
+    let hb := genc_h h ++ genc_b b in
+    length hb' = length hb -> length lenb' = 4%nat -> length crcb' = 4%nat ->
+    Forall (fun x => x < 256) crcb' ->
+    burst_error (bits_of (hb ++ le32 n ++ le32 (crc32c (hb ++ le32 n)))) (bits_of (hb' ++ lenb' ++ crcb')) ->
+    let s' := hb' ++ lenb' ++ crcb' ++ tl in
+    (exists k, gdec_h s' = GErr k) \/
+    (exists h' n1, gdec_h s' = GOk h' n1 /\ n1 <= lenN hb' /\
+       ((exists k, gdec_b (dropN n1 s') = GErr k) \/
+        (exists b' n2, gdec_b (dropN n1 s') = GOk b' n2 /\ n1 + n2 = lenN hb'))) ->
+    (exists r, recv H B gdec_h gdec_b s' bufcap isbulk = RErrHdr r) \/
+    (exists r, recv H B gdec_h gdec_b s' bufcap isbulk = RErrBody r) \/
+    recv H B gdec_h gdec_b s' bufcap isbulk = RErrCrc tl.
+Proof. exact burst_header_partial. Qed.
+Print Assumptions frame_burst_header_partial.
